@@ -233,7 +233,7 @@ impl Check for TermCheck {
     }
     fn budget(&self, tier: Tier) -> Budget {
         match tier {
-            Tier::Quick => Budget { runs: 40_000, wall_s: 60 },
+            Tier::Quick => Budget { runs: 120_000, wall_s: 90 },
             Tier::Thorough => Budget { runs: 2_000_000, wall_s: 600 },
         }
     }
